@@ -31,7 +31,8 @@ CHECKS = {
                  "on generated inputs; cli.parse_args delivers --path-include/--path-exclude verbatim; write-site frame scan (every write primitive in the "
                  "package is under an effect contract or on a committed allow-list); the two get_files_to_analyze implementations (deductive: only selected "
                  "files with the codemod's extensions / only files carrying a finding of a requested rule); BOUNDED: nothing outside the target is "
-                 "written through symlinked manifests or sources."),
+                 "written through symlinked manifests or sources; the two file selections of a real context (find-and-fix: defaults when no "
+                 "pattern; SAST: the user's patterns without the default excludes)."),
         "note": "fnmatch, Path.rglob/is_symlink trusted; symlinked manifests (BaseParser.find_file_locations) and 'every fixable file is fixed' are out of reach.",
         "design_ref": "DESIGN.md section 4 C05",
     },
@@ -71,7 +72,9 @@ CHECKS = {
                  "compile_results[i] is built from key i only; apply_codemods is a sequential fold: ghost trace == A:id1, D:id1, A:id2, D:id2, ... "
                  "(each codemod's dependency update happens before the next codemod starts); process_dependencies touches only its codemod; _apply hands "
                  "the worker pool exactly its own selection get_files_to_analyze(context, results) (ghost work-list trace: nothing left behind by "
-                 "another codemod filters or extends it); a new context starts with every aggregate empty."),
+                 "another codemod filters or extends it); a new context starts with every aggregate empty. BOUNDED stand-ins (not counted as proved): the "
+                 "property's own oracle on a small real project (batch run vs one codemod at a time through the real CLI: identical trees and per-codemod "
+                 "results), and a later codemod needing the same package adds nothing to the same cached package stores."),
         "note": ("Restricted claim: read-only inputs shared between codemods (semgrep pre-filter computed once, cached package stores mutated in "
                  "memory, functools.cache on result-file loaders) are listed as undecided dependencies; BaseCodemod.apply is used through its "
                  "dynamic-dispatch contract."),
@@ -136,7 +139,9 @@ CHECKS = {
                  "for a run whose report was written' (ghost report_written set by CodeTF.write_report, itself verified: 0 iff the whole "
                  "serialised report reached the file, 2 on any failure), main exits with run's value, ArgumentParser.error always exits 3, both "
                  "AI-client set-ups raise MisconfiguredAIClient exactly for an inconsistent key/endpoint pair, the context constructor passes "
-                 "the options through unchanged."),
+                 "the options through unchanged. BOUNDED stand-in (not counted as proved): the real run in-process on 15 argument vectors (missing / "
+                 "empty target, missing result files with and without --verbose, duplicate SARIF tool, unwritable report, invalid or conflicting "
+                 "options, --version/--list): exit status == documented status, report written => 0."),
         "note": ("Trusted: argparse (parse_args returns or exits 0/3), os.path.exists / os.getenv as functions of their argument, sys.exit, "
                  "the client-library constructors, file I/O model (no partial writes: open('w') fails before touching the file or not at all), "
                  "contracts of run's callees that belong to other properties (apply_codemods, compile_results, match_codemods: verified there "
